@@ -3,5 +3,5 @@ CONSTANTS
   MaxLen = 7
   MaxDepth = 3
   Fuel = 80
-INVARIANTS MachineSane NoUB EmitCase
+INVARIANTS MachineSane NoUB Monitors Scans EmitCase
 CHECK_DEADLOCK FALSE
